@@ -54,6 +54,7 @@ type Options struct {
 	TickEvery      int           // pump steps per raft tick
 	ElectionTick   int
 	HeartbeatTick  int
+	MaxSizePerMsg  uint64 // raft MaxSizePerMsg (also bounds the committed entries handed out per Ready); default 1 MiB
 	DB             dbx.Config
 }
 
@@ -92,6 +93,8 @@ type Node struct {
 	inc  int
 	db   *NoKV.DB
 	st   *store.Store
+
+	applyDelay atomic.Int64 // nanoseconds slept before each applied write command
 }
 
 // Cluster is a running in-process cluster.
@@ -141,6 +144,9 @@ func New(opt Options) (*Cluster, error) {
 	}
 	if opt.ElectionTick <= 0 {
 		opt.ElectionTick = 10
+	}
+	if opt.MaxSizePerMsg == 0 {
+		opt.MaxSizePerMsg = 1 << 20
 	}
 	if opt.HeartbeatTick <= 0 {
 		opt.HeartbeatTick = 2
@@ -205,6 +211,9 @@ func (c *Cluster) Start(idx int) error {
 	inc := n.inc
 	inner := kv.NewApplier(db)
 	applier := func(req *pb.RaftCmdRequest) (*pb.RaftCmdResponse, error) {
+		if d := n.applyDelay.Load(); d > 0 && !readOnly(req) {
+			time.Sleep(time.Duration(d)) // a slow state machine (perturbation only)
+		}
 		resp, aerr := inner(req)
 		if readOnly(req) {
 			return resp, aerr
@@ -220,7 +229,7 @@ func (c *Cluster) Start(idx int) error {
 				ID:              PeerID(r.ID, idx),
 				ElectionTick:    c.opt.ElectionTick,
 				HeartbeatTick:   c.opt.HeartbeatTick,
-				MaxSizePerMsg:   1 << 20,
+				MaxSizePerMsg:   c.opt.MaxSizePerMsg,
 				MaxInflightMsgs: 256,
 				PreVote:         true,
 			},
@@ -501,6 +510,9 @@ func (c *Cluster) Isolate(idx int) { c.net.heal(); c.net.isolate(idx) }
 
 // Cut cuts the directed link a -> b (healing any earlier partition first).
 func (c *Cluster) Cut(a, b int) { c.net.heal(); c.net.cut(a, b, true) }
+
+// SetApplyDelay makes store idx sleep d before applying each write command.
+func (c *Cluster) SetApplyDelay(idx int, d time.Duration) { c.Nodes[idx].applyDelay.Store(int64(d)) }
 
 // Isolated reports whether every link of the store is currently cut.
 func (c *Cluster) Isolated(idx int) bool { return c.net.isolated(idx) }
